@@ -8,6 +8,7 @@ import (
 	"fmt"
 	"reflect"
 	"sort"
+	"strconv"
 	"strings"
 
 	"github.com/openconfig/goyang/pkg/yang"
@@ -255,6 +256,83 @@ func RandomStable(t *tape.Tape) *Schedule {
 		if m != Sorted {
 			s.Sites[k] = Reversed
 		}
+	}
+	return s
+}
+
+// InstallSortedStateless makes every rewritten range iterate in canonical
+// sorted order using a hook without any mutable state, so that it can be
+// called from several tasks at once (C19) without being a data race itself.
+func InstallSortedStateless() {
+	zzsim.MapOrder = func(site string, keys []any) []int {
+		n := len(keys)
+		perm := make([]int, n)
+		for i := range perm {
+			perm[i] = i
+		}
+		if n < 2 {
+			return perm
+		}
+		ks := make([]string, n)
+		for i, k := range keys {
+			ks[i] = keyStringPure(k)
+		}
+		sort.SliceStable(perm, func(a, b int) bool { return ks[perm[a]] < ks[perm[b]] })
+		return perm
+	}
+}
+
+// keyStringPure is keyString without shared state and without fmt (whose
+// sync.Pool would add happens-before noise between tasks).
+func keyStringPure(k any) string {
+	switch x := k.(type) {
+	case string:
+		return "s:" + x
+	case yang.Node:
+		if x == nil || reflect.ValueOf(x).IsNil() {
+			return "n:<nil>"
+		}
+		loc := "?"
+		if st := x.Statement(); st != nil {
+			loc = locKeyPure(st.Location())
+		}
+		return "n:" + loc + ":" + x.Kind() + ":" + x.NName()
+	case *yang.YangType:
+		if x == nil {
+			return "t:<nil>"
+		}
+		return "t:" + x.Name
+	}
+	v := reflect.ValueOf(k)
+	switch v.Kind() {
+	case reflect.Int, reflect.Int8, reflect.Int16, reflect.Int32, reflect.Int64:
+		return "i:" + pad(uint64(v.Int())^(1<<63))
+	case reflect.Uint, reflect.Uint8, reflect.Uint16, reflect.Uint32, reflect.Uint64:
+		return "u:" + pad(v.Uint())
+	}
+	return "x"
+}
+
+func locKeyPure(loc string) string {
+	parts := strings.Split(loc, ":")
+	if len(parts) < 3 {
+		return loc
+	}
+	n := len(parts)
+	a, b := parts[n-2], parts[n-1]
+	for len(a) < 8 {
+		a = "0" + a
+	}
+	for len(b) < 8 {
+		b = "0" + b
+	}
+	return strings.Join(parts[:n-2], ":") + ":" + a + ":" + b
+}
+
+func pad(n uint64) string {
+	s := strconv.FormatUint(n, 10)
+	for len(s) < 20 {
+		s = "0" + s
 	}
 	return s
 }
